@@ -415,7 +415,7 @@ func TestC18(t *testing.T) {
 	defer r.Flush()
 	r.Rule("virtual-time sessions (polling, WebSocket, WebTransport; 1-2 sender goroutines; 2-15 sends with and without callbacks, bursts and gaps; optional upgrade; optional Close at a chosen send) monitored through the tap log: per hand-off exactly flush, server flush (same batch), drain, server drain in order; packetCreate once per accepted Send and before the packet is flushed; no packet flushed twice; conservation on open sessions; callbacks at most once, after their batch's flush event, in send order, never after close; plus the re-entrancy matrix {packetCreate, flush, drain, message, heartbeat, close, upgrade, server flush/drain/connection, send callback} x {Send, Close(false), Close(true)} on real time with a goroutine-dump proof rule; distinct = case signature / matrix cell")
 	r.Assume("a send callback that never runs on an open session is recorded, not judged: the statement bounds callbacks from above (at most once, not before, in order)")
-	n := r.N(700, 40000)
+	n := r.N(2500, 200000)
 	for i := 0; i < n; i++ {
 		if !r.Only(i) {
 			continue
